@@ -40,6 +40,15 @@ theorem bufferNullableOp_lawful {α : Type} : (bufferNullableOp (α := α)).Lawf
       simp only [Function.comp]
       omega
 
+theorem valToNullableOp_lawful : valToNullableOp.Lawful := by
+  constructor
+  · intro s
+    have := bufferNullableOp_lawful (α := Int) |>.1 s
+    simpa [valToNullableOp] using this
+  · intro s a b
+    have := (bufferNullableOp_lawful (α := Int)).2 s (a.map fun v => (v.getD 0, v.isSome)) (b.map fun v => (v.getD 0, v.isSome))
+    simpa [valToNullableOp, List.map_append] using this
+
 theorem selectOp_lawful {α : Type} (data : List α) : (selectOp data).Lawful := by
   constructor <;> intros <;> simp [selectOp]
 
